@@ -251,6 +251,25 @@ MUTANTS = [
     ('c15-dupshare', 'C15', BIGMAP, '            items=deepcopy(self.items),\n            ptr=self.ptr,\n            removed_keys=deepcopy(self.removed_keys),', '            items=self.items,\n            ptr=self.ptr,\n            removed_keys=self.removed_keys,', 'DUP shares the lists (updates create new lists, so still correct) — expected to SURVIVE'),
     ('c15-gethash', 'C15', BIGMAP, '            key_hash = forge_script_expr(key.pack(legacy=True))\n            val_expr', '            key_hash = forge_script_expr(key.pack(legacy=True)[:-1] + b"\\x00")\n            val_expr', 'lazy read uses a corrupted key hash'),
 ]
+MICHELINE = 'pytezos/michelson/micheline.py'
+MUTANTS += [
+    # kinds learned from the later seeded rounds (one-line versions)
+    ('c26-anystatus', 'C26', NODE, 'if res.status_code >= 500 and _is_transient_response(res)', 'if res.status_code != 401 and _is_transient_response(res)',
+     'status guard dropped: any answer quoting the marker / any temporary error list is retried'),
+    ('c26-longbody', 'C26', NODE, '    return any(marker in res.text for marker in _TRANSIENT_TEXT_MARKERS)',
+     "    return int(res.headers.get('content-length') or 0) <= 4096 and any(marker in res.text for marker in _TRANSIENT_TEXT_MARKERS)",
+     'long bodies with a Content-Length header are not scanned for the marker'),
+    ('c28-lenuri', 'C28', NODE, '            self._next_i = (self._next_i + 1) % len(self.nodes)', '            self._next_i = (self._next_i + 1) % len(self.uri)',
+     "rotation modulo the length of the caller's list"),
+    ('c24-builtin-constants', 'C24', GROUP, 'default_fee(x, gas_limit, minimal_nanotez_per_gas_unit, constants)', 'default_fee(x, gas_limit, minimal_nanotez_per_gas_unit)',
+     'revert fix: fill() prices the default gas limit with the built-in constants'),
+    ('c22-notimpl', 'C22', MICHELINE, "            return func(*args, **kwargs)\n        except Exception as e:\n            if not e.args:",
+     "            return func(*args, **kwargs)\n        except NotImplementedError:\n            raise\n        except Exception as e:\n            if not e.args:",
+     'NotImplementedError escapes the error wrapper: such a cell is not rolled back'),
+    ('c29-stopblock', 'C29', SEARCH, "        last, head = self.get_range()\n        state_changes = find_state_changes(\n            head=head - 1,  # ballots are empty at the last block",
+     "        last, head = self.get_range()\n        if self._getitem(head).votes.ballots() == self._getitem(last).votes.ballots():\n            return\n        state_changes = find_state_changes(\n            head=head - 1,  # ballots are empty at the last block",
+     'find_ballots returns early when the stop block equals the start block'),
+]
 MUTANTS = [m for m in MUTANTS if m[5] is not None]
 EXPECT_SURVIVE = {'c15-dupshare', 'c25-noreset'}
 MUTANT_RUNS = {'C26': 6000, 'C28': 4000, 'C29': 3000, 'C25': 1500, 'C24': 1200, 'C22': 800, 'C15': 800}
